@@ -6,22 +6,31 @@ from concurrent.futures import ThreadPoolExecutor
 from vlib import tlc, tlaval, gorun, core
 
 PROPS = ['C15']
-HARNESS = ['zz_pair_test.go', 'zz_streampool_test.go']
+HARNESS = ['zz_vs_sched.go', 'zz_pair_test.go', 'zz_streampool_test.go']
+# statement-granular scheduling points in the pool functions and in the two Stream functions PutBack runs before it
+# publishes the stream (rewriter rule everyStmt; the pool mutex is embedded, so p.Lock() is scheduler-aware)
+INSTR = {"files": {
+    "session_manager.go": {"funcs": [], "everyStmt": ["streamPool.putOrCloseStream", "streamPool.push", "streamPool.pop",
+                                                       "streamPool.getOrOpenStream"]},
+    "stream.go": {"funcs": [], "everyStmt": ["Stream.reset", "Stream.ReleaseReadAndReuse"]},
+}}
 SLUG_DISCARD = 'pool-discard-without-close'
 SLUG_LATE = 'late-reply-into-pooled-stream'
 SLUG_WRITE = 'unflushed-write-survives-reuse'
-SLUGS = [SLUG_DISCARD, SLUG_LATE, SLUG_WRITE]
+SLUG_CBARM = 'close-after-reset-not-armed'
+SLUGS = [SLUG_DISCARD, SLUG_LATE, SLUG_WRITE, SLUG_CBARM]
 
 INVS = 'TypeOK Exclusive NoLeakModKnown CountExact TableShape CapOK'
-PROPS_TL = 'FreshModKnown PutOutcome'
+PROPS_TL = 'FreshModKnown PutOutcome DeferredCloseDone'
 
 # name, callers, cap, N, MaxSess, MaxOwed, MaxUnread, features
 QUICK = [
     ('core-2callers', [1, 2], 1, 3, 1, 2, 2, ['peerclose', 'reply']),
-    ('fallback-1caller', [1], 1, 3, 1, 2, 2, ['fb', 'reply', 'peerclose', 'closeheld']),
+    ('fallback-unflushed-1caller', [1], 1, 3, 1, 2, 2, ['fb', 'write', 'reply', 'peerclose', 'closeheld']),
     ('sessionloss-1caller', [1], 1, 3, 2, 1, 1, ['sess', 'rebuild', 'peerclose', 'reply', 'closeheld']),
     ('cap2-2callers', [1, 2], 2, 3, 1, 1, 1, ['peerclose', 'reply']),
-    ('unflushed-1caller', [1], 1, 3, 1, 2, 2, ['write', 'reply', 'peerclose', 'closeheld']),
+    ('callback-2callers', [1, 2], 1, 2, 1, 1, 1, ['cb', 'reply', 'write']),
+    ('split-2callers', [1, 2], 1, 2, 1, 1, 1, ['split', 'reply', 'write']),
 ]
 THOROUGH = QUICK + [
     ('sessionloss-2callers', [1, 2], 1, 2, 2, 1, 1, ['sess', 'rebuild', 'peerclose']),
@@ -30,6 +39,9 @@ THOROUGH = QUICK + [
     ('unflushed-2callers', [1, 2], 1, 2, 1, 2, 1, ['write', 'reply', 'peerclose']),
     ('all-1caller', [1], 1, 2, 2, 2, 1, ['fb', 'reply', 'peerclose', 'closeheld', 'sess', 'rebuild', 'write']),
     ('all-2callers-nosess', [1, 2], 1, 2, 1, 2, 1, ['fb', 'reply', 'peerclose', 'closeheld', 'write']),
+    ('callback-peerclose-2callers', [1, 2], 1, 2, 1, 1, 1, ['cb', 'reply', 'write', 'peerclose']),
+    ('callback-1caller', [1], 1, 2, 1, 2, 1, ['cb', 'reply', 'write', 'peerclose', 'closeheld']),
+    ('split-peerclose-2callers', [1, 2], 1, 2, 1, 1, 1, ['split', 'reply', 'write', 'peerclose']),
 ]
 # checked by TLC only (no graph dump, nothing replayed): everything at once
 BIG = ('all-2callers', [1, 2], 1, 2, 2, 2, 1, ['fb', 'reply', 'peerclose', 'closeheld', 'sess', 'rebuild', 'write'])
@@ -40,7 +52,7 @@ BIG = ('all-2callers', [1, 2], 1, 2, 2, 2, 1, ['fb', 'reply', 'peerclose', 'clos
 # reset() refuses a non-empty write buffer. These constants only decide what the spec PREDICTS (conforming vs. drift);
 # verdicts come from the oracles on the real objects and from known-findings.txt alone.
 # VERIF_C15_PREFIX_CODE=drop,unread,wbuf switches them back for experiments with a worktree that predates the fixes.
-AS_CODE = {'drop': True, 'unread': True, 'wbuf': True}
+AS_CODE = {'drop': True, 'unread': True, 'wbuf': True, 'arms': True}
 for _k in (os.environ.get('VERIF_C15_PREFIX_CODE') or '').split(','):
     if _k in AS_CODE:
         AS_CODE[_k] = False
@@ -54,21 +66,43 @@ def S(a, c=0, s=0, f=False):
 # reproduced the three defects on the real code before the fixes. They are replayed RAW in every run; if one shows its
 # defect again it is a VIOLATION (or a KNOWN-FINDING if the slug is listed in known-findings.txt).
 REGRESSION = [
-    (SLUG_DISCARD, [S('Get', 1), S('Send', 1), S('Put', 1), S('PeerClose', s=1), S('Get', 1)]),
-    (SLUG_LATE, [S('Get', 1), S('Send', 1), S('Put', 1), S('PeerReply', s=1), S('Get', 1)]),
-    (SLUG_WRITE, [S('Get', 1), S('Write', 1), S('Put', 1), S('Get', 1)]),
-    (SLUG_WRITE, [S('Get', 1), S('Send', 1), S('Write', 1), S('PeerReply', s=1), S('Read', 1), S('Put', 1), S('Get', 1)]),
+    (SLUG_DISCARD, 1, 1, [S('Get', 1), S('Send', 1), S('Put', 1), S('PeerClose', s=1), S('Get', 1)]),
+    (SLUG_LATE, 1, 1, [S('Get', 1), S('Send', 1), S('Put', 1), S('PeerReply', s=1), S('Get', 1)]),
+    (SLUG_WRITE, 1, 1, [S('Get', 1), S('Write', 1), S('Put', 1), S('Get', 1)]),
+    (SLUG_WRITE, 1, 1, [S('Get', 1), S('Send', 1), S('Write', 1), S('PeerReply', s=1), S('Read', 1), S('Put', 1), S('Get', 1)]),
+    # PutBack while OnData runs + successful reset + full pool: Close() deferred but not armed (TLC: strict NoLeak, depth 9)
+    (SLUG_CBARM, 2, 1, [S('Get', 1), S('SetCb', 1), S('Send', 1), S('Get', 2), S('Put', 2), S('PeerReply', s=1), S('Put', 1),
+                        S('CbReturn', s=1)]),
+    # PutBack while OnData runs + FAILING reset (unflushed / unread data): the deferred close must be armed and happen
+    # (TLC counterexample of the design variant ResetClearsCbFirst = seeded change C15r2-m1)
+    ('callback-close-after-failed-reset', 1, 1, [S('Get', 1), S('SetCb', 1), S('Send', 1), S('PeerReply', s=1), S('Write', 1), S('Put', 1),
+                                                 S('CbReturn', s=1)]),
+    ('callback-close-after-failed-reset', 1, 1, [S('Get', 1), S('SetCb', 1), S('Send', 1), S('PeerReply', s=1), S('PeerClose', s=1),
+                                                 S('Put', 1), S('CbReturn', s=1)]),
+]
+# statement-granular interleaving of one caller's PutBack with another caller's GetStream+WriteBytes after this setup (the
+# TLC counterexample of the design variant PushBeforeRelease = seeded change C15r2-m2 needs the buffer swap, i.e. a
+# completely read answer)
+REGRESSION_SWEEPS = [
+    {'name': 'regression-sweep-after-read', 'cap': 1, 'callers': 2, 'a': 1, 'b': 2,
+     'setup': [S('Get', 1), S('Send', 1), S('PeerReply', s=1), S('Read', 1)]},
+    {'name': 'regression-sweep-cap2', 'cap': 2, 'callers': 2, 'a': 1, 'b': 2,
+     'setup': [S('Get', 1), S('Get', 2), S('Put', 2), S('Send', 1), S('PeerReply', s=1), S('Read', 1)]},
 ]
 
 
-def cfg_text(callers, cap, n, maxsess, maxowed, maxunread, feat, invs=INVS, props=PROPS_TL, drop=None, chk=None, wb=None):
+def cfg_text(callers, cap, n, maxsess, maxowed, maxunread, feat, invs=INVS, props=PROPS_TL, drop=None, chk=None, wb=None,
+             arms=None, m1=False, m2=False):
     drop = AS_CODE['drop'] if drop is None else drop
     chk = AS_CODE['unread'] if chk is None else chk
     wb = AS_CODE['wbuf'] if wb is None else wb
+    arms = AS_CODE['arms'] if arms is None else arms
+    B = lambda x: 'TRUE' if x else 'FALSE'
     return ('SPECIFICATION Spec\nCONSTANTS\n  Callers = {%s}\n  Cap = %d\n  N = %d\n  MaxSess = %d\n  MaxOwed = %d\n'
-            '  MaxUnread = %d\n  DropCloses = %s\n  GetChecksUnread = %s\n  PutChecksWbuf = %s\n  Feat = {%s}\n%s%sCHECK_DEADLOCK FALSE\n') % (
-        ', '.join(map(str, callers)), cap, n, maxsess, maxowed, maxunread, 'TRUE' if drop else 'FALSE',
-        'TRUE' if chk else 'FALSE', 'TRUE' if wb else 'FALSE', ', '.join('"%s"' % f for f in feat),
+            '  MaxUnread = %d\n  DropCloses = %s\n  GetChecksUnread = %s\n  PutChecksWbuf = %s\n  CloseArmsAlways = %s\n'
+            '  ResetClearsCbFirst = %s\n  PushBeforeRelease = %s\n  Feat = {%s}\n%s%sCHECK_DEADLOCK FALSE\n') % (
+        ', '.join(map(str, callers)), cap, n, maxsess, maxowed, maxunread, B(drop), B(chk), B(wb), B(arms), B(m1), B(m2),
+        ', '.join('"%s"' % f for f in feat),
         ('INVARIANTS %s\n' % invs) if invs else '', ('PROPERTIES %s\n' % props) if props else '')
 
 
@@ -82,7 +116,8 @@ def lst(v, n):
 def expect(st):
     n = len(lst(st['st'], 0))
     return {'st': lst(st['st'], n), 'tab': lst(st['tab'], n), 'unread': lst(st['unread'], n), 'fb': lst(st['fb'], n),
-            'srv': lst(st['srv'], n), 'wbuf': lst(st['wbuf'], n), 'ring': list(st['ring']), 'holder': lst(st['holder'], 0), 'sess': lst(st['sess'], 0),
+            'srv': lst(st['srv'], n), 'wbuf': lst(st['wbuf'], n),
+            'cb': [c and s != 'closed' for c, s in zip(lst(st['cb'], n), lst(st['st'], n))], 'inproc': lst(st['inproc'], n), 'ring': list(st['ring']), 'holder': lst(st['holder'], 0), 'sess': lst(st['sess'], 0),
             'cur': st['cur']}
 
 
@@ -92,7 +127,7 @@ def step_of(label):
     act = m.group(1)
     args = [a.strip() for a in (m.group(2) or '').split(',') if a.strip()]
     st = {'a': act, 'c': 0, 's': 0, 'f': False}
-    if act in ('Get', 'Put', 'Read', 'CloseHeld', 'Write'):
+    if act in ('Get', 'Put', 'Read', 'CloseHeld', 'Write', 'SetCb', 'PutBegin', 'PutRelease', 'PutPush'):
         st['c'] = int(args[0])
     elif act == 'Send':
         st['c'] = int(args[0])
@@ -100,20 +135,20 @@ def step_of(label):
     elif act == 'PeerReply':
         st['s'] = int(args[0])
         st['f'] = args[1] == 'TRUE'
-    elif act in ('PeerClose', 'Teardown'):
+    elif act in ('PeerClose', 'Teardown', 'CbReturn'):
         st['s'] = int(args[0])
     return st
 
 
 def fmt_step(s):
     a = s['a']
-    if a in ('Get', 'Put', 'Read', 'CloseHeld', 'Write'):
+    if a in ('Get', 'Put', 'Read', 'CloseHeld', 'Write', 'SetCb', 'PutBegin', 'PutRelease', 'PutPush', 'Flush'):
         return '%s(%d)' % (a, s['c'])
     if a == 'Send':
         return 'Send(%d,%s)' % (s['c'], 'exhausted' if s['f'] else 'shm')
     if a == 'PeerReply':
         return 'PeerReply(%d,%s)' % (s['s'], 'exhausted' if s['f'] else 'shm')
-    if a in ('PeerClose', 'Teardown'):
+    if a in ('PeerClose', 'Teardown', 'CbReturn'):
         return '%s(%d)' % (a, s['s'])
     return a
 
@@ -134,7 +169,8 @@ def histories_from_graph(name, plan, nodes, edges, inits):
             st = step_of(label)
             st['x'] = node(d)
             steps.append(st)
-        hs.append({'name': '%s/cover-%d' % (name, pi), 'cap': plan[2], 'callers': len(plan[1]), 'n': plan[3], 'steps': steps})
+        hs.append({'name': '%s/cover-%d' % (name, pi), 'cap': plan[2], 'callers': len(plan[1]), 'n': plan[3], 'steps': steps,
+                   'sched': any(s['a'].startswith('Put') and s['a'] != 'Put' for s in steps)})
     return hs
 
 
@@ -200,7 +236,7 @@ def shortest_witnesses(plan, graph, want):
 
 
 def run_go(ck, job, timeout=1500):
-    g = gorun.run_harness('^TestVS_StreamPool$', HARNESS, None, inputs={'job': job}, timeout=timeout)
+    g = gorun.run_harness('^TestVS_StreamPool$', HARNESS, INSTR, inputs={'job': job}, timeout=timeout)
     if g.result is None:
         ck.inconc('harness produced no result (rc=%d): %s' % (g.rc, g.out[-1500:]))
         return None
@@ -208,9 +244,78 @@ def run_go(ck, job, timeout=1500):
 
 
 def replay_obj(v):
-    return {'kind': 'history', 'cap': v.get('cap') or 1, 'callers': v.get('callers') or 2, 'history': v.get('history'),
-            'steps': [{'a': s['a'], 'c': s.get('c', 0), 's': s.get('s', 0), 'f': s.get('f', False)} for s in (v.get('steps') or [])],
-            'detail': v['detail']}
+    ro = {'kind': 'history', 'cap': v.get('cap') or 1, 'callers': v.get('callers') or 2, 'history': v.get('history'),
+          'steps': [{'a': s['a'], 'c': s.get('c', 0), 's': s.get('s', 0), 'f': s.get('f', False)} for s in (v.get('steps') or [])],
+          'sched': any(s['a'] in ('PutBegin', 'PutRelease', 'PutPush') for s in (v.get('steps') or [])),
+          'detail': v['detail']}
+    if v.get('sweep'):
+        ro['kind'] = 'sweep'
+        ro['sweep'] = v['sweep']
+    return ro
+
+
+def sweeps_from_graph(plan, graph, rng, limit, nrandom, seed):
+    """setups for the statement-granular PutBack/GetStream interleaving: states of the "split" graph in which a caller is
+    about to give back a stream that reset() accepts while another caller holds nothing; one (shortest) behaviour per
+    distinct shape of that stream and of the pool"""
+    from collections import deque
+    res, nodes, edges, inits = graph
+    out = {}
+    for idx, (s, d, _l) in enumerate(edges):
+        out.setdefault(s, []).append(idx)
+    parent = {inits[0]: None}
+    dq = deque([inits[0]])
+    parsed = {}
+
+    def st(n):
+        if n not in parsed:
+            parsed[n] = tlaval.parse_state(nodes[n])
+        return parsed[n]
+    callers = sorted(plan[1])
+    shapes = {}
+    while dq:
+        n = dq.popleft()
+        for e in out.get(n, []):
+            s, d, label = edges[e]
+            if label.startswith('PutBegin'):
+                a, b = st(s), st(d)
+                c = step_of(label)['c']
+                k = callers.index(c)
+                pcb = lst(b['pc'], 0)
+                if pcb[k] != 'idle':          # reset succeeded
+                    sid = lst(a['holder'], 0)[k]
+                    others = [x for i, x in enumerate(callers) if i != k and lst(a['holder'], 0)[i] == 0 and lst(a['pc'], 0)[i] == 'idle']
+                    if others:
+                        shape = (lst(a['cons'], 0)[sid - 1], lst(a['rsv'], 0)[sid - 1], lst(a['srv'], 0)[sid - 1],
+                                 lst(a['owed'], 0)[sid - 1], len(a['ring']))
+                        if shape not in shapes:
+                            shapes[shape] = (n, c, others[0])
+            if d not in parent:
+                parent[d] = e
+                dq.append(d)
+    sw = []
+    for shape, (n, a, b) in sorted(shapes.items(), key=lambda kv: str(kv[0])):
+        path = []
+        m = n
+        while parent[m] is not None:
+            path.append(parent[m])
+            m = edges[parent[m]][0]
+        path.reverse()
+        steps = [step_of(edges[x][2]) for x in path]
+        # the setup is replayed with atomic PutBack calls: fold the three phases
+        folded = []
+        for s_ in steps:
+            if s_['a'] == 'PutBegin':
+                folded.append(dict(s_, a='Put'))
+            elif s_['a'] in ('PutRelease', 'PutPush'):
+                continue
+            else:
+                folded.append(s_)
+        sw.append({'name': '%s/sweep-shape-%s' % (plan[0], '-'.join(str(x) for x in shape)), 'cap': plan[2], 'callers': len(plan[1]),
+                   'setup': folded, 'a': a, 'b': b, 'random': nrandom, 'seed': seed})
+    if len(sw) > limit:
+        sw = rng.sample(sw, limit)
+    return sw
 
 
 def report(ck, r, what, conc=None):
@@ -271,9 +376,14 @@ def run(prop, tier, seed, replay=None):
         h = {'name': 'replay', 'cap': rep['cap'], 'callers': rep['callers'], 'n': 4, 'raw': False, 'steps': rep['steps']}
         job = {'histories': [h], 'known': listed, 'random': {'n': 0, 'seed': 1, 'steps': 0, 'callers': 1, 'cap': 1},
                'conc': {'runs': 0, 'callers': 1, 'ops': 0, 'cap': 1, 'seed': 1}}
+        h['sched'] = bool(rep.get('sched'))
+        job['sweeps'] = []
         if rep.get('conc'):
             job['histories'] = []
             job['conc'] = rep['conc']
+        if rep.get('sweep'):
+            job['histories'] = []
+            job['sweeps'] = [rep['sweep']]
         r = run_go(ck, job)
         ck.add('states', 1)
         ck.add('transitions', max(1, len(rep['steps'])))
@@ -294,31 +404,42 @@ def run(prop, tier, seed, replay=None):
                               extra_files={'mc.cfg': cfg_text(callers, cap, n, ms, mo, mu, feat)})
     core_plan = QUICK[0]
 
-    lead_plan = ('lead', [1, 2], 1, 2, 1, 2, 1, ['peerclose', 'reply', 'write'])
+    lead_plan = ('lead', [1, 2], 1, 2, 1, 2, 1, ['peerclose', 'reply', 'write', 'cb'])
     write_plan = ('leadw', [1], 1, 2, 1, 2, 1, ['write'])
-    STRICT = {'noleak': (core_plan, SLUG_DISCARD, 'NoLeak'), 'fresh': (core_plan, SLUG_LATE, 'Fresh'),
-              'freshw': (write_plan, SLUG_WRITE, 'Fresh')}
+    cb_plan = ('leadcb', [1, 2], 1, 2, 1, 1, 1, ['cb', 'reply', 'write'])
+    split_plan = ('leadsplit', [1, 2], 1, 2, 1, 1, 1, ['split', 'reply', 'write'])
+    # strict property on a design in which ONE repair / ONE seeded change is undone: TLC must find the counterexample
+    # kind -> (plan, slug, property name, invariants, action properties, switches, replay the counterexample on the code?)
+    OLD = dict(drop=True, chk=True, wb=True, arms=True)
+    STRICT = {
+        'noleak': (core_plan, SLUG_DISCARD, 'NoLeak', 'NoLeak', '', dict(OLD, drop=False), True),
+        'fresh': (core_plan, SLUG_LATE, 'Fresh', '', 'Fresh', dict(OLD, chk=False), True),
+        'freshw': (write_plan, SLUG_WRITE, 'Fresh', '', 'Fresh', dict(OLD, wb=False), True),
+        'cbarm': (cb_plan, SLUG_CBARM, 'NoLeak', 'NoLeak', '', dict(OLD, arms=False), True),
+        'resetfirst': (cb_plan, 'callback-close-after-failed-reset', 'DeferredCloseDoneStrict (ResetClearsCbFirst, CloseArmsAlways off)',
+                       '', 'DeferredCloseDoneStrict', dict(OLD, arms=False, m1=True), True),
+        'pushfirst': (split_plan, 'push-before-release', 'Exclusive (PushBeforeRelease)', 'Exclusive', '', dict(OLD, m2=True), False),
+    }
 
     def strict(kind):
         if kind in STRICT:
-            (name, callers, cap, n, ms, mo, mu, feat), _slug, p = STRICT[kind]
+            (name, callers, cap, n, ms, mo, mu, feat), _slug, _pn, invs, props, sw, _rp = STRICT[kind]
             return tlc.run('StreamPool', 'mc.cfg', timeout=600, workers=1, extra_files={
-                'mc.cfg': cfg_text(callers, cap, n, ms, mo, mu, feat, invs='NoLeak' if p == 'NoLeak' else '',
-                                   props='' if p == 'NoLeak' else 'Fresh', drop=False, chk=False, wb=False)})
+                'mc.cfg': cfg_text(callers, cap, n, ms, mo, mu, feat, invs=invs, props=props, **sw)})
         name, callers, cap, n, ms, mo, mu, feat = lead_plan
-        return tlc.run('StreamPool', 'mc.cfg', timeout=600, workers=2,
+        return tlc.run('StreamPool', 'mc.cfg', timeout=900, workers=2,
                        extra_files={'mc.cfg': cfg_text(callers, cap, n, ms, mo, mu, feat, invs='TypeOK Exclusive NoLeak TableShape CapOK',
-                                                       props='Fresh PutOutcome', drop=True, chk=True, wb=True)})
+                                                       props='Fresh PutOutcome DeferredCloseDoneStrict', drop=True, chk=True, wb=True, arms=True)})
 
     # the part of the real-code work that does not depend on TLC (free-running concurrent callers) runs while TLC
     # builds the graphs; its recorded histories are validated by TLC meanwhile. The seeded random histories run after
     # the graph histories.
     conc = {'runs': 12 if quick else 80, 'callers': 3, 'ops': 6, 'cap': 2, 'seed': ck.seed}
     randomj = {'n': 150 if quick else 4000, 'seed': ck.seed, 'steps': 30, 'callers': 2, 'cap': 2}
-    job1 = {'histories': [], 'known': listed, 'random': NOJOB_R, 'conc': conc}
+    job1 = {'histories': [], 'known': listed, 'random': NOJOB_R, 'conc': conc, 'sweeps': []}
 
     def go_raw(job, timeout):
-        return gorun.run_harness('^TestVS_StreamPool$', HARNESS, None, inputs={'job': job}, timeout=timeout)
+        return gorun.run_harness('^TestVS_StreamPool$', HARNESS, INSTR, inputs={'job': job}, timeout=timeout)
 
     def traces_job(g1):
         """validate the recorded concurrent histories: one TLC run explains all of them (reset lines in between)"""
@@ -342,7 +463,7 @@ def run(prop, tier, seed, replay=None):
            % (len(plans), '' if quick else ' + strict/repaired runs'))
     ex = ThreadPoolExecutor(max_workers=12)
     fg = [ex.submit(graph, p) for p in plans]
-    fs = {} if quick else {k: ex.submit(strict, k) for k in ('noleak', 'fresh', 'freshw', 'repaired')}
+    fs = {} if quick else {k: ex.submit(strict, k) for k in list(STRICT) + ['repaired']}
     fbig = None
     if not quick:
         def big():
@@ -380,8 +501,8 @@ def run(prop, tier, seed, replay=None):
     #         marks the classes with the ghosts `leaked` / `late`; the shortest TLC behaviour into each class decides the
     #         KNOWN-FINDING line. thorough: plus the counterexamples of the strict properties.
     wit = []
-    for i, (slug, steps) in enumerate(REGRESSION):
-        wit.append((slug, {'name': 'regression-%d-%s' % (i, slug), 'cap': 1, 'callers': 1, 'n': 2, 'raw': True, 'steps': steps}))
+    for i, (slug, ncall, cap, steps) in enumerate(REGRESSION):
+        wit.append((slug, {'name': 'regression-%d-%s' % (i, slug), 'cap': cap, 'callers': ncall, 'n': 2, 'raw': True, 'steps': steps}))
     # on a tree whose spec switches say "pre-fix", the ghost-marked classes exist in the graphs: shortest behaviours into them
     wplans = [(plans[0], graphs[0], [SLUG_DISCARD, SLUG_LATE])]
     wplans += [(p, g, [SLUG_WRITE, SLUG_WRITE + '#swap']) for p, g in zip(plans, graphs) if p[0] == 'unflushed-1caller']
@@ -390,16 +511,23 @@ def run(prop, tier, seed, replay=None):
             wit.append((slug, h))
             ck.cov[h['name'].replace('-', '_', 1)] = ' ; '.join(fmt_step(s) for s in h['steps'])
     if not quick:
-        for kind, (pl, slug, _p) in STRICT.items():
+        for kind, (pl, slug, _pn, _i, _p, _sw, rp) in STRICT.items():
             lr = leads[kind]
-            if lr.violation and lr.trace:
+            if rp and lr.violation and lr.trace:
                 wit.append((slug, history_from_trace('tlc-counterexample-' + slug, pl, lr.trace)))
     ck.log('graphs ready: %d histories to replay (+%d witnesses)' % (len(histories), len(wit)))
-    job2 = {'histories': [h for _, h in wit] + histories, 'known': listed, 'random': randomj, 'conc': NOJOB_C}
+    sweeps = []
+    for i, sw in enumerate(REGRESSION_SWEEPS):
+        sweeps.append(dict(sw, random=10 if quick else 100, seed=ck.seed * 131 + i))
+    for pl, gr in zip(plans, graphs):
+        if 'split' in pl[7]:
+            sweeps += sweeps_from_graph(pl, gr, rng, 6 if quick else 40, 8 if quick else 60, ck.seed)
+    job2 = {'histories': [h for _, h in wit] + histories, 'known': listed, 'random': randomj, 'conc': NOJOB_C, 'sweeps': sweeps}
     g2 = go_raw(job2, 900 if quick else 2400)
     ck.log('replay on the real code done')
     g1 = f1.result()
     EMPTY = {'violations': [], 'drift': [], 'drift_count': 0, 'conforming': 0, 'replayed': 0, 'steps': 0, 'random_runs': 0,
+             'sweep_runs': 0, 'sweep_points': 0, 'sweep_b_got_a_stream': 0, 'sweep_labels': [], 'sched_histories': 0,
              'random_steps': 0, 'oracle_evals': {}, 'known_hits': {}, 'samples': [], 'conc_runs': 0, 'conc_ops': 0,
              'conc_reused': 0, 'conc_traces': []}
     for g, what in ((g1, 'concurrent'), (g2, 'replay+random')):
@@ -422,6 +550,12 @@ def run(prop, tier, seed, replay=None):
     ck.add('traces_validated_against_impl', r['conforming'])
     ck.cov['histories_replayed_on_real_code'] = r['replayed']
     ck.cov['replay_steps'] = r['steps']
+    ck.cov['scheduler_driven_histories'] = r.get('sched_histories', 0)
+    ck.cov['putback_getstream_interleavings'] = {
+        'setups': len(sweeps), 'executions': r.get('sweep_runs', 0),
+        'getstream_obtained_the_stream_being_given_back': r.get('sweep_b_got_a_stream', 0),
+        'scheduling_points_seen': len(r.get('sweep_labels') or [])}
+    ck.add('traces_validated_against_impl', 0)
     ck.cov['random_histories_on_real_code'] = r['random_runs'] + r1['random_runs']
     ck.cov['random_steps'] = r['random_steps'] + r1['random_steps']
     oe = dict(r['oracle_evals'])
@@ -449,14 +583,14 @@ def run(prop, tier, seed, replay=None):
     # ---- 3. known-finding classes
     if not quick:
         rep = leads['repaired']
-        ck.cov['design_repaired'] = ('DropCloses=TRUE GetChecksUnread=TRUE PutChecksWbuf=TRUE: strict NoLeak/Fresh %s (%d states)'
+        ck.cov['design_current'] = ('all switches as the current code, 2 callers, cb+write+reply+peerclose: strict NoLeak/Fresh/DeferredCloseDone %s (%d states)'
                                      % ('hold' if rep.ok else 'FAIL: %s' % (rep.violation or rep.error), rep.distinct))
         if rep.ok:
             ck.add('states', rep.distinct)
             ck.add('transitions', rep.generated)
-        for kind, (pl, slug, pname) in STRICT.items():
+        for kind, (pl, slug, pname, _i, _p, _sw, _rp) in STRICT.items():
             lr = leads[kind]
-            ck.cov['design_lead_' + kind] = ('strict %s on the pre-fix design (switch off) (%s): %s' % (
+            ck.cov['design_lead_' + kind] = ('strict %s with one repair / seeded change undone (%s): %s' % (
                 pname, slug,
                 ('violated, depth %d: %s' % (len(lr.trace), ' ; '.join(fmt_step(step_of(l)) for l, _ in lr.trace[1:])))
                 if lr.violation else ('holds (%d states)' % lr.distinct if lr.ok else 'tool error')))
